@@ -195,18 +195,19 @@ class StartWorkflowHandler(StabilizeHandler[StartWorkflow]):
                     )
                 )
 
-        # Record events if event recorder is configured
-        if self.event_recorder:
-            self.set_event_context(execution.id)
-            self.event_recorder.record_workflow_created(
-                execution,
-                source_handler="StartWorkflowHandler",
-            )
-            self.event_recorder.record_workflow_started(
-                execution,
-                initial_stage_ids=[s.id for s in initial_stages],
-                source_handler="StartWorkflowHandler",
-            )
+            # Record events if event recorder is configured - inside the
+            # transaction, so they precede every later event of the workflow.
+            if self.event_recorder:
+                self.set_event_context(execution.id)
+                self.event_recorder.record_workflow_created(
+                    execution,
+                    source_handler="StartWorkflowHandler",
+                )
+                self.event_recorder.record_workflow_started(
+                    execution,
+                    initial_stage_ids=[s.id for s in initial_stages],
+                    source_handler="StartWorkflowHandler",
+                )
 
         # Audit log
         audit(
